@@ -64,7 +64,10 @@ ENCODINGS = [('utf-8', '', False), ('utf-8', '', True), ('latin-1', '# -*- codin
              ('shift_jis', '# coding=shift_jis', False), ('utf-8', '# coding: utf-8', False), ('utf-8', '# coding: utf-8', True),
              ('latin-1', '# coding: latin-1', True),        # contradicts its BOM: the interpreter rejects it
              ('utf-8', '# coding: no-such-codec', False),   # unknown codec: rejected
-             ('latin-1', '# coding: utf-8', False)]         # bytes that are not valid in the declared encoding: rejected when non-ASCII is present
+             ('latin-1', '# coding: utf-8', False),         # bytes that are not valid in the declared encoding: rejected when non-ASCII is present
+             # a cookie the interpreter ignores because it comes too late: on line 3 when a shebang precedes these lines (and on line 2 - where it
+             # counts - when none does); the same with an unknown codec name
+             ('utf-8', '#\n# coding: latin-1', False), ('utf-8', '#\n# coding: no-such-codec', False), ('utf-8', '\n\n# coding: latin-1', False)]
 NEWLINES = ['\n', '\r\n', '\r', 'mixed', 'nofinal']
 SHEBANGS = [None, '#!/usr/bin/env python', '#!/usr/bin/env python  \t', '#!/usr/bin/\u00e9nv python', '#!', '#! /bin/sh -x',
             # characters that str.splitlines() treats as line boundaries but the interpreter does not
